@@ -14,10 +14,14 @@ def copy_repo(dst):
     shutil.copytree("/repo", dst, ignore=shutil.ignore_patterns(".git", "__pycache__", "*.egg-info", "docs", "profiling"))
 def run(cmd, cwd, env, timeout=1800):
     return subprocess.run(cmd, cwd=cwd, env=env, capture_output=True, text=True, timeout=timeout)
-outs = sorted(d for d in os.listdir(os.path.join(a.wt, "out")) if os.path.isdir(os.path.join(a.wt, "out", d)))
+RESEED = os.path.exists(os.path.join(a.wt, "patch.diff"))   # re-evaluate a stored /verif/seeded/<PID>-<i> directory
+if RESEED:
+    outs = [os.path.basename(a.wt.rstrip("/")).split("-", 1)[1]]
+else:
+    outs = sorted(d for d in os.listdir(os.path.join(a.wt, "out")) if os.path.isdir(os.path.join(a.wt, "out", d)))
 for i in outs:
     if a.only and i != a.only: continue
-    src = os.path.join(a.wt, "out", i)
+    src = a.wt if RESEED else os.path.join(a.wt, "out", i)
     work = tempfile.mkdtemp(prefix="pyttb_seed_", dir="/tmp")
     clean, mut = os.path.join(work, "clean"), os.path.join(work, "mut")
     meta = {"id": f"{a.pid}-{i}", "property": a.pid, "source": "independent sub-agent given only the property text and a scratch worktree"}
@@ -55,8 +59,13 @@ for i in outs:
         if confirmed:
             dst = os.path.join("/verif/seeded", f"{a.pid}-{i}")
             os.makedirs(dst, exist_ok=True)
+            try:
+                old = json.load(open(os.path.join(dst, "meta.json")))
+                if old.get("history"): meta["history"] = old["history"]
+            except (OSError, ValueError):
+                pass
             for f in ("patch.diff", "demo.py", "notes.md"):
-                if os.path.exists(os.path.join(src, f)): shutil.copy(os.path.join(src, f), dst)
+                if not RESEED and os.path.exists(os.path.join(src, f)): shutil.copy(os.path.join(src, f), dst)
             meta["ran"] = ["doctests on patched copy", "demo.py on patched and clean copy"] + [f"./check {p} --tier {a.tier} with PYTTB_SRC=<patched copy>" for p in props]
             json.dump(meta, open(os.path.join(dst, "meta.json"), "w"), indent=1)
     finally:
